@@ -20,7 +20,8 @@ CONSTANTS MaxRev,     \* maximal number of revocations
           NW,         \* witnesses; witness w holds prime id w
           NU,         \* update objects
           MaxApply,   \* bound on Apply + Prepend steps
-          MemoKeyed
+          MemoKeyed,
+          Spare       \* spare SignedAccumulator object ids (only trace validation re-makes update slots)
 
 W == 1..NW
 U == 1..NU
@@ -28,38 +29,47 @@ Other == NW + 1     \* prime id of "somebody else" (a fresh prime in every posit
 None == -1
 
 VARIABLES rev,      \* sequence of revoked prime ids; accumulator index = Len(rev)
-          wit,      \* [W -> [issued, idx, t, good]]
-          upd,      \* [U -> [made, first, last, t, memo]]   events first..last, accumulator index = last
+          wit,      \* [W -> [issued, idx, o, good]]
+          upd,      \* [U -> [made, first, last, o, memo]]   events first..last, accumulator index = last
+          tobj,     \* signing time of each SignedAccumulator OBJECT (object id = position). Witnesses and updates
+                    \* hold pointers (field o): a successful Witness.Update makes the witness share the update's
+                    \* object, and the time-only branch overwrites the object the witness points to IN PLACE
+                    \* (*w.SignedAccumulator = *update.SignedAccumulator), which every other holder sees
           nstep,    \* number of Apply/Prepend steps taken
           last      \* observable result of the last Apply/Prepend
-vars == <<rev, wit, upd, nstep, last>>
-view == <<rev, wit, upd, nstep>>      \* `last` is output only
+vars == <<rev, wit, upd, tobj, nstep, last>>
+view == <<rev, wit, upd, tobj, nstep>>      \* `last` is output only
 
 n == Len(rev)
 RevokedAt(w) == IF \E i \in 1..n : rev[i] = w THEN CHOOSE i \in 1..n : rev[i] = w ELSE 0
 
+WT(w) == tobj[wit[w].o]      \* time of the accumulator a witness holds
+UT(k) == tobj[upd[k].o]      \* time of the accumulator an update carries
 NoResult == [op |-> "none", w |-> 0, k |-> 0, res |-> "none", g |-> 0, h |-> 0, p |-> FALSE]
 
 Init == /\ rev = <<>>
-        /\ wit = [w \in W |-> [issued |-> FALSE, idx |-> 0, t |-> 0, good |-> TRUE]]
-        /\ upd = [k \in U |-> [made |-> FALSE, first |-> 0, last |-> 0, t |-> 0, memo |-> None]]
+        /\ wit = [w \in W |-> [issued |-> FALSE, idx |-> 0, o |-> 0, good |-> TRUE]]
+        /\ upd = [k \in U |-> [made |-> FALSE, first |-> 0, last |-> 0, o |-> 0, memo |-> None]]
+        /\ tobj = [x \in 1..(NW + NU + Spare) |-> 0]
         /\ nstep = 0
         /\ last = NoResult
 
 RevokeOther == /\ n < MaxRev /\ rev' = Append(rev, Other)
-               /\ UNCHANGED <<wit, upd, nstep>> /\ last' = NoResult
+               /\ UNCHANGED <<wit, upd, tobj, nstep>> /\ last' = NoResult
 RevokeWit(w) == /\ n < MaxRev /\ wit[w].issued /\ RevokedAt(w) = 0
                 /\ rev' = Append(rev, w)
-                /\ UNCHANGED <<wit, upd, nstep>> /\ last' = NoResult
+                /\ UNCHANGED <<wit, upd, tobj, nstep>> /\ last' = NoResult
 \* a witness is issued against the current accumulator (signed at time 0); good = FALSE is a
 \* witness whose u is garbage (used for "a failed update leaves the witness as it was")
 Issue(w, g) == /\ ~wit[w].issued
-               /\ wit' = [wit EXCEPT ![w] = [issued |-> TRUE, idx |-> n, t |-> 0, good |-> g]]
+               /\ tobj' = [tobj EXCEPT ![w] = 0]                    \* witness w's own object has id w
+               /\ wit' = [wit EXCEPT ![w] = [issued |-> TRUE, idx |-> n, o |-> w, good |-> g]]
                /\ UNCHANGED <<rev, upd, nstep>> /\ last' = NoResult
 \* an update carrying events f..n and the current accumulator (index n) signed at time t;
 \* f = n+1 means no events
 MakeUpdate(k, f, t) == /\ ~upd[k].made /\ f \in 0..(n+1)
-                       /\ upd' = [upd EXCEPT ![k] = [made |-> TRUE, first |-> f, last |-> n, t |-> t, memo |-> None]]
+                       /\ tobj' = [tobj EXCEPT ![NW + k] = t]             \* update k's object has id NW + k
+                       /\ upd' = [upd EXCEPT ![k] = [made |-> TRUE, first |-> f, last |-> n, o |-> NW + k, memo |-> None]]
                        /\ UNCHANGED <<rev, wit, nstep>> /\ last' = NoResult
 
 \* Witness.Update(pk, update)
@@ -76,18 +86,19 @@ Apply(w, k) ==
          hit == \E i \in used : i >= 1 /\ rev[i] = w
          R(res) == [op |-> "apply", w |-> w, k |-> k, res |-> res, g |-> 0, h |-> 0, p |-> FALSE]
      IN IF a = our
-          THEN IF upd[k].t <= wit[w].t
-                 THEN /\ last' = R("noop") /\ UNCHANGED <<wit, upd>>
-                 ELSE /\ last' = R("oktime") /\ wit' = [wit EXCEPT ![w].t = upd[k].t] /\ UNCHANGED upd
+          THEN IF UT(k) <= WT(w)
+                 THEN /\ last' = R("noop") /\ UNCHANGED <<wit, upd, tobj>>
+                 ELSE /\ last' = R("oktime") /\ tobj' = [tobj EXCEPT ![wit[w].o] = UT(k)] /\ UNCHANGED <<wit, upd>>
         ELSE IF f > a \/ a <= our
-          THEN /\ last' = R("noop") /\ UNCHANGED <<wit, upd>>
+          THEN /\ last' = R("noop") /\ UNCHANGED <<wit, upd, tobj>>
         ELSE IF f > our + 1
-          THEN /\ last' = R("toonew") /\ UNCHANGED <<wit, upd>>
+          THEN /\ last' = R("toonew") /\ UNCHANGED <<wit, upd, tobj>>
         ELSE /\ upd' = [upd EXCEPT ![k].memo = IF upd[k].memo = None \/ MemoKeyed THEN from ELSE @]
+             /\ UNCHANGED tobj
              /\ IF hit
                   THEN /\ last' = R("revoked") /\ UNCHANGED wit
                 ELSE IF used = needed /\ wit[w].good
-                  THEN /\ wit' = [wit EXCEPT ![w].idx = a, ![w].t = upd[k].t]
+                  THEN /\ wit' = [wit EXCEPT ![w].idx = a, ![w].o = upd[k].o]
                        /\ last' = R("ok")
                   ELSE /\ last' = R("invalidated") /\ UNCHANGED wit
   /\ UNCHANGED rev
@@ -108,7 +119,7 @@ Prepend(k, g, h, withProduct) ==
         ELSE /\ upd' = [upd EXCEPT ![k].first = g,
                                    ![k].memo = IF withProduct THEN g ELSE None]
              /\ last' = R("ok")
-  /\ UNCHANGED <<rev, wit>>
+  /\ UNCHANGED <<rev, wit, tobj>>
 
 \* Update.Prepend with a list that does NOT belong to this accumulator (events g..h of another chain under the
 \* same key, h >= 1: event 0 is identical in all chains): whatever the window, the call fails and must leave
@@ -118,7 +129,7 @@ PrependForeign(k, g, h, withProduct) ==
   /\ g \in 0..n /\ h \in g..n /\ h >= 1
   /\ nstep' = nstep + 1
   /\ last' = [op |-> "prependforeign", w |-> 0, k |-> k, res |-> "rejected", g |-> g, h |-> h, p |-> withProduct]
-  /\ UNCHANGED <<rev, wit, upd>>
+  /\ UNCHANGED <<rev, wit, upd, tobj>>
 
 Next == \/ RevokeOther
         \/ \E w \in W : RevokeWit(w)
@@ -134,9 +145,9 @@ TypeOK == /\ n <= MaxRev
           /\ \A k \in U : upd[k].made => upd[k].last \in 0..n /\ upd[k].first \in 0..(upd[k].last + 1)
 
 \* inductive typing of the reachable states, used by RevocationGen to enumerate pre-states directly
-ReachW(w) == wit[w].issued => /\ wit[w].idx \in 0..n /\ wit[w].t \in {0, 1}
+ReachW(w) == wit[w].issued => /\ wit[w].idx \in 0..n /\ wit[w].o \in DOMAIN tobj /\ WT(w) \in {0, 1}
                               /\ (RevokedAt(w) # 0 => wit[w].idx < RevokedAt(w))
-ReachU(k) == upd[k].made => /\ upd[k].last \in 0..n /\ upd[k].first \in 0..(upd[k].last + 1) /\ upd[k].t \in {0, 1}
+ReachU(k) == upd[k].made => /\ upd[k].last \in 0..n /\ upd[k].first \in 0..(upd[k].last + 1) /\ upd[k].o \in DOMAIN tobj /\ UT(k) \in {0, 1}
                             /\ (upd[k].memo = None \/ upd[k].memo \in upd[k].first..upd[k].last)
 Reach == (\A w \in W : ReachW(w)) /\ (\A k \in U : ReachU(k))
              /\ (\A w \in W : Cardinality({i \in 1..n : rev[i] = w}) <= 1)
@@ -148,9 +159,9 @@ RevokedReportedRight == [][last'.res = "revoked" => RevokedAt(last'.w) # 0 /\ Re
 \* a revoked witness never reaches an accumulator from which its value was removed
 NeverRevalidated == \A w \in W : wit[w].issued /\ RevokedAt(w) # 0 => wit[w].idx < RevokedAt(w)
 \* a good witness stays valid against the accumulator it holds (abstractly: stays good)
-MonotoneA == \A w \in W : wit[w].issued => (wit'[w].idx = wit[w].idx /\ wit'[w].t >= wit[w].t) \/ wit'[w].idx > wit[w].idx
+MonotoneA == \A w \in W : wit[w].issued => (wit'[w].idx = wit[w].idx /\ tobj'[wit'[w].o] >= WT(w)) \/ wit'[w].idx > wit[w].idx
 Monotone == [][MonotoneA]_vars
-FailedUpdateNoChange == [][last'.op = "apply" /\ last'.res \in {"toonew", "revoked", "invalidated", "noop"} => wit' = wit]_vars
+FailedUpdateNoChange == [][last'.op = "apply" /\ last'.res \in {"toonew", "revoked", "invalidated", "noop"} => wit' = wit /\ tobj' = tobj]_vars
 \* completeness: an update whose window reaches back to the witness brings a good, unrevoked witness to its accumulator
 Advances == [][last'.op = "apply" /\ wit[last'.w].good /\ upd[last'.k].first <= wit[last'.w].idx + 1
                /\ upd[last'.k].first <= upd[last'.k].last /\ upd[last'.k].last > wit[last'.w].idx
